@@ -40,6 +40,8 @@ enum Inner {
     NotNullable,
     #[error("abort")]
     Aborted,
+    #[error("operator panicked: {0}")]
+    Panicked(String),
 }
 
 impl From<Inner> for Error {
@@ -90,5 +92,8 @@ impl Error {
     }
     pub fn aborted() -> Self {
         Inner::Aborted.into()
+    }
+    pub fn panicked(message: String) -> Self {
+        Inner::Panicked(message).into()
     }
 }
